@@ -77,8 +77,9 @@ def subtree(tree, rel):
     return node
 
 
-def snapshot(root):
-    """{relative path: (type, size, sha256)} of everything under root."""
+def snapshot(root, times=False):
+    """{relative path: (type, size, sha256)} of everything under root; times=True adds the modification time of
+    regular files (a file that is rewritten or touched differs even when its bytes are the same)."""
     snap = {}
     for dirpath, dirnames, filenames in os.walk(root):
         rel = os.path.relpath(dirpath, root)
@@ -92,7 +93,7 @@ def snapshot(root):
                 if stat.S_ISREG(st.st_mode):
                     with open(p, "rb") as fh:
                         data = fh.read()
-                    snap[rel + f] = ("file", len(data), hashlib.sha256(data).hexdigest())
+                    snap[rel + f] = ("file", len(data), hashlib.sha256(data).hexdigest()) + ((st.st_mtime_ns,) if times else ())
                 else:
                     snap[rel + f] = ("other", 0, "")
             except OSError:
